@@ -69,7 +69,7 @@ def write_cfg(path, spec="Spec", constants=None, invariants=(), properties=(), c
 
 
 def run_tlc(name, module, cfg_kwargs, workers=12, xmx="8g", timeout=1500, env_extra=None,
-            simulate=None, seed=None, depth_first=False, extra_args=()):
+            simulate=None, seed=None, depth_first=False, extra_args=(), depth=None):
     """Run TLC on spec/<module>.tla in a fresh work dir. Returns dict with stdout path, counts."""
     wd = os.path.join(WORK, name)
     shutil.rmtree(wd, ignore_errors=True)
@@ -87,7 +87,7 @@ def run_tlc(name, module, cfg_kwargs, workers=12, xmx="8g", timeout=1500, env_ex
            "-metadir", os.path.join(wd, "md"), "-cleanup", "-noGenerateSpecTE",
            "-config", cfg]
     if simulate:
-        cmd += ["-simulate", simulate]
+        cmd += ["-simulate", simulate] + (["-depth", str(depth)] if depth else [])
     if seed is not None:
         cmd += ["-seed", str(seed)]
     cmd += list(extra_args) + [os.path.join(wd, module + ".tla")]
@@ -111,6 +111,9 @@ def run_tlc(name, module, cfg_kwargs, workers=12, xmx="8g", timeout=1500, env_ex
                 generated, distinct = int(m.group(1)), int(m.group(2))
             if line.startswith("Error:") or "Invariant" in line and "violated" in line:
                 errors.append(line.strip())
+            m = re.match(r"The number of states generated: (\d+)", line)
+            if m:          # simulation mode
+                generated = distinct = int(m.group(1))
             m = re.match(r"The depth of the complete state graph search is (\d+)", line)
             if m:
                 res["depth"] = int(m.group(1))
@@ -268,11 +271,11 @@ def merge_counts(dst, src):
 
 # ------------------------------------------------------------------ generate -> replay pipeline
 def gen_and_replay(name, module, constants, props, seed, invariants=(), workers=12, timeout=1500,
-                   tag="CASE", xmx="8g", harness_args=()):
+                   tag="CASE", xmx="8g", harness_args=(), constraints=(), simulate=None, view=None, depth=None):
     """TLC enumerates cases with expected values (one PrintT line each); the harness replays them
     into geo.  Returns (tlc result dict, number of cases, mismatches, harness summary)."""
-    res = run_tlc(name, module, dict(constants=constants, invariants=invariants), workers=workers,
-                  timeout=timeout, xmx=xmx)
+    res = run_tlc(name, module, dict(constants=constants, invariants=invariants, constraints=constraints, view=view),
+                  workers=workers, timeout=timeout, xmx=xmx, simulate=simulate, seed=seed if simulate else None, depth=depth)
     tlc_ok_or_die(res)
     cases = os.path.join(res["wd"], "cases.ndjson")
     n = extract_tagged(res["out"], tag, cases)
@@ -314,3 +317,26 @@ def replay_file(pid, path, seed, t0, props=None):
 def tlc_summary(runs):
     return [{k: r.get(k) for k in ("name", "module", "generated", "distinct", "depth", "wall_s", "cases", "harness_wall_s")}
             for r in runs]
+
+
+def validate_trace(name, module, constants, trace_path, invariants=(), timeout=900, spec="TraceSpec",
+                   postcondition="TraceAccepted"):
+    """Chained trace validation: the recorded history must be a behaviour of the trace spec.
+    Returns (tlc result, rejected_event or None)."""
+    res = run_tlc(name, module, dict(spec=spec, constants=constants, invariants=invariants, postcondition=postcondition),
+                  workers=1, xmx="4g", timeout=timeout, env_extra={"TRACE": trace_path}, depth_first=True)
+    rejected = None
+    inv_violated = [e for e in res["errors"] if "Invariant" in e]
+    with open(res["out"], errors="replace") as f:
+        for line in f:
+            if line.startswith('<<"TRACE-REJECTED"'):
+                m = re.match(r'<<"TRACE-REJECTED", (\d+), (".*")>>', line.strip())
+                rejected = {"index": int(m.group(1)), "event": json.loads(json.loads(m.group(2)))}
+    other = [e for e in res["errors"] if "Postcondition" not in e and "Invariant" not in e]
+    if other or res["distinct"] is None:
+        tail = subprocess.run(["grep", "-v", "^<<", res["out"]], stdout=subprocess.PIPE, text=True).stdout[-3000:]
+        log(tail)
+        raise ToolError("trace validation run %s failed: %s" % (name, other[:3]))
+    if inv_violated and rejected is None:
+        rejected = {"index": res.get("depth"), "event": {"invariant": inv_violated}}
+    return res, rejected
